@@ -160,7 +160,9 @@ func (l *entryLog) AddEntries(entries []raftpb.Entry) error {
 			}
 			logger.GetLogger().Info("clearFirstFile slots", zap.Int("startSlot", lastIdx), zap.Int("endSlot", maxNumEntries),
 				zap.Int("fileLoc", firstIdx), zap.Int("fileNum", len(l.files)))
-			_ = l.current.entry.WriteSlice(lastIdx, maxNumEntries, int64(entrySize*lastIdx), make([]byte, logFileOffset-entrySize*lastIdx), false, true)
+			// WriteSlice prepends a 4-byte length to the buffer: the zero fill must end at the end of the slot table,
+			// not 4 bytes later (those bytes are the length header of the file's first payload)
+			_ = l.current.entry.WriteSlice(lastIdx, maxNumEntries, int64(entrySize*lastIdx), make([]byte, logFileOffset-entrySize*lastIdx-unit32Size), false, true)
 			l.current.entry.setCurrent()
 			l.files = l.files[:firstIdx]
 			l.filesSync.Unlock()
